@@ -172,6 +172,53 @@ func g14RandPred(r *vRand, names []string, depth int) *g14Pred {
 	return &g14Pred{op: '&', sub: []*g14Pred{g14RandPred(r, names, 0), g14RandPred(r, names, 0)}}
 }
 
+// g14Chain is a directed family for two lookahead flags: V is set by an explicit argument at the
+// top, travels implicitly through first positions (In -> Na -> Nb), and Nb adds the OTHER flag W
+// by an explicit argument on its way to Nc, which tests both. Nc has to be instantiated with V from
+// Nb's own instance and W from the argument. (Seeded change C14-r12m2 computed the set of flags to
+// propagate once for the whole grammar instead of per reference; no random grammar of the quick
+// tier had this shape.)
+func g14Chain(r *vRand) *g14Grammar {
+	v, w := "L0", "L1"
+	if r.Intn(2) == 0 {
+		v, w = w, v
+	}
+	t := func() g14Sym { return g14Sym{term: 1 + r.Intn(3)} }
+	// the path stays short (the texts of the quick tier have <= 4 tokens): a trailing terminal after
+	// a reference only now and then, and Nc's alternatives start with three different terminals
+	tail := func(syms ...g14Sym) []g14Sym {
+		if r.Intn(3) == 0 {
+			return append(syms, t())
+		}
+		return syms
+	}
+	perm := [][3]int{{1, 2, 3}, {1, 3, 2}, {2, 1, 3}, {2, 3, 1}, {3, 1, 2}, {3, 2, 1}}[r.Intn(6)]
+	lit := func(n string) *g14Pred { return &g14Pred{op: 'v', name: n} }
+	g := &g14Grammar{la: []string{"L0", "L1"}}
+	in := &g14NT{name: "In"}
+	in.alts = append(in.alts, g14Alt{syms: tail(g14Sym{nt: 1, args: []g14Arg{{v, true}}})})
+	if r.Intn(2) == 0 {
+		in.alts = append(in.alts, g14Alt{syms: []g14Sym{{nt: 3, args: []g14Arg{{w, r.Intn(2) == 0}}}, t()}})
+	}
+	in.alts = append(in.alts, g14Alt{syms: []g14Sym{t(), t()}})
+	na := &g14NT{name: "Na"}
+	na.alts = append(na.alts, g14Alt{syms: tail(g14Sym{nt: 2})})
+	if r.Intn(2) == 0 {
+		na.alts = append(na.alts, g14Alt{syms: []g14Sym{{nt: 3}}})
+	}
+	na.alts = append(na.alts, g14Alt{syms: []g14Sym{t()}})
+	nb := &g14NT{name: "Nb"}
+	nb.alts = append(nb.alts, g14Alt{syms: []g14Sym{{nt: 3, args: []g14Arg{{w, r.Intn(3) != 0}}}, t()}}, g14Alt{syms: []g14Sym{t()}})
+	nc := &g14NT{name: "Nc"}
+	nc.alts = append(nc.alts, g14Alt{pred: lit(v), syms: []g14Sym{{term: perm[0]}}}, g14Alt{pred: lit(w), syms: []g14Sym{{term: perm[1]}, t()}})
+	if r.Intn(2) == 0 {
+		nc.alts = append(nc.alts, g14Alt{pred: &g14Pred{op: '&', sub: []*g14Pred{lit(v), &g14Pred{op: '!', sub: []*g14Pred{lit(w)}}}}, syms: []g14Sym{{term: perm[0]}, {term: perm[0]}, t()}})
+	}
+	nc.alts = append(nc.alts, g14Alt{syms: []g14Sym{{term: perm[2]}}})
+	g.nts = []*g14NT{in, na, nb, nc}
+	return g
+}
+
 func g14Gen(r *vRand) *g14Grammar {
 	g := &g14Grammar{}
 	for i := 0; i < r.Intn(3); i++ {
@@ -451,7 +498,7 @@ func g14Denote(g *g14Grammar) (cfg *g14cfg, start int, ok bool) {
 }
 
 func TestVerifC14Compiler(t *testing.T) {
-	ck := vNew("C14/compiled-templates", "seeded templated grammars as .tm text: 0..2 global %flags (with and without defaults), an inline flag X declared by several nonterminals, 0..2 %lookahead flags, 3..4 nonterminals of 3..4 alternatives with predicates (! && ||), explicit +/~ arguments and implicit propagation; all terminal strings of length <=4 (<=5 thorough) from the input", false,
+	ck := vNew("C14/compiled-templates", "seeded templated grammars as .tm text: 0..2 global %flags (with and without defaults), an inline flag X declared by several nonterminals, 0..2 %lookahead flags, 3..4 nonterminals of 3..4 alternatives with predicates (! && ||), explicit +/~ arguments and implicit propagation, every 8th grammar a directed chain In -> Na -> Nb -> Nc that carries one lookahead flag implicitly and adds the other explicitly; all terminal strings of length <=4 (<=5 thorough) from the input", false,
 		"syntaxLoader.resolveRef", "syntaxLoader.resolveParam", "syntaxLoader.sortArgs", "syntax.PropagateLookaheads", "syntax.Instantiate", "syntax.Expand", "Compile")
 	r := vNewRand(vSeed() + 141)
 	n, maxLen := 2500, 4
@@ -474,6 +521,9 @@ func TestVerifC14Compiler(t *testing.T) {
 	rejected := map[string]int{}
 	for i := 0; i < n; i++ {
 		g := g14Gen(r)
+		if i%8 == 7 {
+			g = g14Chain(r) // directed: two lookahead flags, one implicit and one explicit on the same path
+		}
 		text := g.text()
 		ref, start, defined := g14Denote(g)
 		if tr := os.Getenv("VERIF_C14_TRACE"); tr != "" {
